@@ -181,3 +181,27 @@ Definition edeleg_eqb (a b : edeleg) : bool :=
   | DCallField f m a1, DCallField g n a2 => String.eqb f g && String.eqb m n && strs_eqb a1 a2
   | _, _ => false
   end.
+
+(** How a function creates or opens a file for writing (gen/jsonx_own.go:
+    every call of os.WriteFile / ioutil.WriteFile / os.Create / os.OpenFile
+    in jsonx/, with the flag names of OpenFile). *)
+Inductive wopen :=
+| WOWriteFile                         (* os.WriteFile: creates or truncates *)
+| WOCreate                            (* os.Create: O_RDWR|O_CREATE|O_TRUNC *)
+| WOOpenFile (flags : list string)    (* os.OpenFile with these os.O_* flags *)
+| WOUnknown (src : string).
+
+Definition wopen_replaces (w : wopen) : bool :=
+  match w with
+  | WOWriteFile | WOCreate => true
+  | WOOpenFile flags =>
+      str_in "O_TRUNC" flags && negb (str_in "O_APPEND" flags)
+      && (str_in "O_WRONLY" flags || str_in "O_RDWR" flags)
+  | WOUnknown _ => false
+  end.
+
+(** Every place that opens a file for writing replaces its whole content,
+    and WriteFile is among them. *)
+Definition writes_replace (opens : list (string * wopen)) : bool :=
+  forallb (fun fw => wopen_replaces (snd fw)) opens
+  && existsb (fun fw => String.eqb (fst fw) "jsonx.WriteFile") opens.
